@@ -17,16 +17,17 @@ import (
 )
 
 type HelpScn struct {
-	Fam    string   `json:"fam"`
-	ID     int      `json:"id"`
-	Decl   int      `json:"decl"`
-	POpts  []string `json:"popts"`
-	Words  []S      `json:"words"` // command words selecting the active chain
-	Width  int      `json:"width"`
-	Kind   string   `json:"kind"` // help | errhelp | man | rehelp (help written a second time on the same parser after the declaration and the terminal changed)
-	Repeat int      `json:"repeat"`
-	Tags   []string `json:"tags"`
-	Obs    *HelpObs `json:"obs,omitempty"`
+	Fam      string   `json:"fam"`
+	ID       int      `json:"id"`
+	Decl     int      `json:"decl"`
+	POpts    []string `json:"popts"`
+	Words    []S      `json:"words"`    // command words selecting the active chain
+	PreWords []S      `json:"preWords"` // non-empty: the same parser first parses these words (another chain); the help is about Words alone
+	Width    int      `json:"width"`
+	Kind     string   `json:"kind"` // help | errhelp | man | rehelp (help written a second time on the same parser after the declaration and the terminal changed)
+	Repeat   int      `json:"repeat"`
+	Tags     []string `json:"tags"`
+	Obs      *HelpObs `json:"obs,omitempty"`
 }
 
 type HelpObs struct {
@@ -108,6 +109,13 @@ func runHelpOnce(t *Tree, sc *HelpScn) *HelpObs {
 		so, se := os.Stdout, os.Stderr
 		os.Stdout, os.Stderr = capOut, capErr
 		defer func() { os.Stdout, os.Stderr = so, se }()
+		if len(sc.PreWords) > 0 {
+			pre := make([]string, len(sc.PreWords))
+			for i, w := range sc.PreWords {
+				pre[i] = w.String()
+			}
+			b.p.ParseArgs(pre)
+		}
 		switch sc.Kind {
 		case "errhelp":
 			_, err := b.p.ParseArgs(append(append([]string{}, words...), "--help"))
@@ -236,7 +244,7 @@ func marker(r *rand.Rand, kind string) string {
 	return kind + itoa(markerN)
 }
 
-var helpWords = []string{"lorem", "ipsum", "dolor", "sit", "amet", "consectetur", "adipiscing", "elit", "naïve", "café", "世界", "Привет", "a", "I/O", "supercalifragilisticexpialidocious", "x-y", "e.g.", "€100", "😀"}
+var helpWords = []string{"100%", "%d", "lorem", "ipsum", "dolor", "sit", "amet", "consectetur", "adipiscing", "elit", "naïve", "café", "世界", "Привет", "a", "I/O", "supercalifragilisticexpialidocious", "x-y", "e.g.", "€100", "😀"}
 
 func helpDesc(r *rand.Rand, mk string) string {
 	n := r.Intn(14)
@@ -344,28 +352,36 @@ func genHelp(r *rand.Rand, t *Tree, id int) *HelpScn {
 	if sc.Kind == "errhelp" {
 		sc.POpts = []string{"HelpFlag"}
 	}
-	// a chain of command words (names or aliases), possibly none; only commands without pending positionals can be descended into
-	c := t.Root
-	var words []string
-	for len(c.Cmds) > 0 && chance(r, 0.7) {
-		// positionals of a command on the way are filled first (one word each); behind a slice positional no command is reachable
-		rest := false
-		for _, a := range c.Args {
-			rest = rest || a.Slice
+	// a chain of command words (names or aliases), possibly none;
+	chainWords := func() []string {
+		c := t.Root
+		var words []string
+		for len(c.Cmds) > 0 && chance(r, 0.7) {
+			// positionals of a command on the way are filled first (one word each); behind a slice positional no command is reachable
+			rest := false
+			for _, a := range c.Args {
+				rest = rest || a.Slice
+			}
+			if rest {
+				break
+			}
+			for range c.Args {
+				words = append(words, pick(r, []string{"1", "1", "7", "w"}))
+			}
+			sub := pick(r, c.Cmds)
+			name := sub.Name
+			if len(sub.Aliases) > 0 && chance(r, 0.3) {
+				name = pick(r, sub.Aliases)
+			}
+			words = append(words, name)
+			c = sub
 		}
-		if rest {
-			break
-		}
-		for range c.Args {
-			words = append(words, pick(r, []string{"1", "1", "7", "w"}))
-		}
-		sub := pick(r, c.Cmds)
-		name := sub.Name
-		if len(sub.Aliases) > 0 && chance(r, 0.3) {
-			name = pick(r, sub.Aliases)
-		}
-		words = append(words, name)
-		c = sub
+		return words
+	}
+	words := chainWords()
+	sc.PreWords = []S{}
+	if chance(r, 0.15) {
+		sc.PreWords = toSs(chainWords()) // an earlier parse of the same parser, along another chain
 	}
 	sc.Words = toSs(words)
 	sc.Width = pick(r, []int{0, 1, 5, 10, 20, 30, 40, 50, 60, 72, 80, 100, 120, 200, 300, 20 + r.Intn(100), 1 + r.Intn(300)})
